@@ -93,11 +93,18 @@ def scenario(sh: Shard, seed, idx, regime):
                 await asyncio.sleep(d)
 
         cancel_after = r.choice([None, None, None, 0.0, 0.05, 0.3, 1.2, 3.9, 4.05]) if idx % 4 == 3 else None
+        well_behaved = all(x.script["answer_from"] == 1 and x.script["loss"] == 0 and x.script["latency"][1] <= 0.4 for x in resp)
+        rerun = bool(resp) and well_behaved and idx % 4 != 3
 
         async def main():
             tm = AsyncTasks()
             await tm.__aenter__()
             loc = GeckoAsyncLocator(tm, handler, **kw)
+            # the task farm tidies its list every TASK_TIDY_FREQUENCY seconds: let some runs straddle a tick
+            pre = r.choice([0, 0, GeckoConfig.TASK_TIDY_FREQUENCY_IN_SECONDS - r.choice([0.5, 3.0, 8.0])])
+            if pre:
+                await asyncio.sleep(pre)
+                sh.count("runs_straddling_a_tidy_tick")
             t0 = w.now
             out["t0"] = t0
             try:
@@ -119,6 +126,18 @@ def scenario(sh: Shard, seed, idx, regime):
             out["t1"] = out.get("t_done", w.now) if not out.get("cancelled") else w.now
             out["spas"] = list(loc.spas or [])
             out["transports"] = list(w.loop.transports)
+            if rerun and cancel_after is None and "exc" not in out:
+                # a second locator object in the same process, against the same (well-behaved) spas:
+                # what one discovery run saw must not leak into the next
+                await asyncio.sleep(0.5)
+                n_ev = len(events)
+                loc2 = GeckoAsyncLocator(tm, handler, **kw)
+                try:
+                    await loc2.discover()
+                    out["spas2"] = list(loc2.spas or [])
+                except Exception as e:
+                    out["exc2"] = e
+                del events[n_ev:]
             await asyncio.sleep(0)
             await asyncio.sleep(0)
             out["loc_tasks"] = [t.get_name() for t in asyncio.all_tasks() if t.get_name().startswith("LOC:") and not t.done()]
@@ -200,6 +219,14 @@ def scenario(sh: Shard, seed, idx, regime):
                     sh.count("names_with_separator_listed")
                 if any(ord(c) > 127 for c in s.name):
                     sh.count("names_latin1_listed")
+        if "exc2" in out:
+            d = describe_exc(out["exc2"])
+            sh.violation("C15:raise", f"a second discover() in the same process raised {d['type']}: {d['msg']}", dict(wit, exc=d))
+        elif "spas2" in out:
+            sh.count("second_discovery_runs")
+            l2 = sorted(s_.identifier for s_ in out["spas2"])
+            if l2 != sorted(listed):
+                sh.violation("C15:second-run-differs", f"a second locator in the same process, against the same well-behaved spas, lists {l2} where the first listed {sorted(listed)}", wit)
         # timing
         specific = ("spa_identifier" in kw) or ("spa_address" in kw)
         if dur > T_MAX + slack:
@@ -264,6 +291,8 @@ def main(tier, seed):
     for m in ("none", "id", "id-absent", "addr", "addr+id"):
         run.need(m in run.sets.get("modes", set()), f"filter mode {m} never exercised")
     run.need(run.counters.get("cancelled_discoveries", 0) > 10, "no cancelled discovery run")
+    run.need(run.counters.get("runs_straddling_a_tidy_tick", 0) > 100, "too few discovery runs straddling a tidy tick of the task farm")
+    run.need(run.counters.get("second_discovery_runs", 0) > 30, "too few second discovery runs in one process")
     run.need(run.counters.get("runs_with_slow_handlers", 0) > 30, "too few runs with a client handler suspended for 0.3 s or more")
     run.need(run.counters.get("names_with_separator_listed", 0) > 5 and run.counters.get("names_latin1_listed", 0) > 20, "names with '|' / latin-1 hardly listed")
     run.need(run.counters.get("returns_on_specific_answer", 0) > 20 and run.counters.get("returns_after_initial_wait", 0) > 20 and run.counters.get("ran_to_timeout", 0) > 20, "return-time classes not all observed")
